@@ -94,6 +94,7 @@ def run(ctx):
         k400 = int(other[2:]) if other.startswith('n:') else None
         bound = None
         for (op, a, b) in fs:
+            b = F.resolve_key(b)
             if op == '<=' and re.match(r'^c4_shift#', a) and b.startswith('n:'):
                 bound = int(b[2:])
             if op == '<=' and re.match(r'^c4_shift#', a) and k400 is not None and \
@@ -108,7 +109,7 @@ def run(ctx):
     for x in adds:
         fs = F.facts_at_ast(x) or frozenset()
         tk = keys.key(call_args(x)[0])
-        ok = any(op == '<=' and a == tk and 'limit' in b or op == '<=' and a == tk and 'max()' in b for (op, a, b) in fs)
+        ok = any(op == '<=' and a == tk and re.search(r'max\(\) - ', F.resolve_key(b)) for (op, a, b) in fs)
         ctx.check(ok, 'C10-saturate', 'instant += 400-year offset only when instant <= max - offset', x,
                   'the shifted-back instant is moved forward again without the test against time_point::max() - offset: the '
                   'addition overflows at the end of the range instead of saturating', construct='saturate:timelocal:add')
